@@ -68,7 +68,7 @@ impl<T: Clone> Vector<T> {
     #[verifier::external_body]
     pub fn into_iter(self) -> (r: SeqIt<T>) ensures r@ == self@ { unimplemented!() }
     #[verifier::external_body]
-    pub fn iter(&self) -> (r: SeqIt<&T>) ensures r@.len() == self@.len(), forall|i: int| 0 <= i < self@.len() ==> *(#[trigger] r@[i]) == self@[i] { unimplemented!() }
+    pub fn iter(&self) -> (r: SeqIt<&T>) ensures r@.len() == self@.len(), forall|i: int| #![trigger r@[i]] #![trigger self@[i]] 0 <= i < self@.len() ==> *(r@[i]) == self@[i] { unimplemented!() }
     #[verifier::external_body]
     pub fn split_at(self, i: usize) -> (r: (Vector<T>, Vector<T>)) requires i <= self@.len() ensures r.0@ == self@.subrange(0, i as int), r.1@ == self@.subrange(i as int, self@.len() as int) { unimplemented!() }
     // imbl 5: skip(count) beyond the length gives the empty vector (measured by depcheck; it does not panic)
